@@ -72,6 +72,11 @@ def run_shard(ctx):
         rng = ctx.rng(case)
         tg = G.TreeGen(rng, U, max_nodes=rng.choice([4, 10, 22]), max_depth=8, max_width=4, share=0.15 if case % 3 == 0 else 0.0, twin=0.2, p_origin=0.4, hostile=0.05)
         s0 = tg.tree()
+        if case % 4 == 2:
+            # (the family whose operands are built around a clearing of the source registry: the seed tree carries a
+            # multi-origin over two different sources at its root - the kind of origin that consults sources when it is built)
+            sa = rng.randrange(O.N_SOURCES)
+            s0.origin = ("multi", (("code", sa, 0, min(2, len(O.TEXTS[sa]))), ("xml", (sa + 1) % O.N_SOURCES, "/a/b")))
         pos0 = preorder(U, s0)
         fam = [(s0, "seed")]
         # one variant per position: only that origin changes
